@@ -95,6 +95,7 @@ class Engine:
         self.pc = []
         self.path_log = None    # per-path observation list
         self.sym_mode = True
+        self.sints = {}
 
     # ------------------------------------------------------------------ fresh names
     def fresh(self, prefix="t"):
@@ -283,6 +284,7 @@ class Engine:
                 self.fresh_ctr = 0
                 self.pc = []
                 self.path_log = []
+                self.sints = {}
                 self.solver.push()
                 status, result = "ok", None
                 try:
